@@ -753,8 +753,7 @@ func (multi *MultiEpoch) processSlotTransactions(
 		}
 
 		if filter.Failed != nil && !filter.GetFailed() { // If failed is false, we should filter out failed transactions (an absent flag does not restrict)
-			err := getErr(meta)
-			if err != nil {
+			if transactionFailed(meta) {
 				return false
 			}
 		}
